@@ -135,14 +135,16 @@ class Sensor:
                 child.id, child.type, child.description
             )
 
-    def set_child_desired_state(self, child_id, value_type, value):
+    def set_child_desired_state(
+        self, child_id, value_type, value, protocol_version=None
+    ):
         """Set a desired child sensor's value for smart sleep nodes."""
         if child_id not in self.new_state:
             raise ValueError(
                 f"Child with id {child_id} not found for sensor {self.sensor_id}"
             )
 
-        self.validate_child_state(child_id, value_type, value)
+        self.validate_child_state(child_id, value_type, value, protocol_version)
 
         child = self.new_state[child_id]
         child.values[value_type] = value
@@ -164,9 +166,15 @@ class Sensor:
 
         new_state_child.values[value_type] = None
 
-    def validate_child_state(self, child_id, value_type, value):
-        """Check if we will be able to generate a set message from these values."""
-        const = get_const(self.protocol_version)
+    def validate_child_state(self, child_id, value_type, value, protocol_version=None):
+        """Check if we will be able to generate a set message from these values.
+
+        The message will be created using the protocol version of the gateway,
+        pass that as protocol_version. Default is the protocol version of the node.
+        """
+        if protocol_version is None:
+            protocol_version = self.protocol_version
+        const = get_const(protocol_version)
         msg_type = const.MessageType.set
 
         try:
@@ -192,7 +200,7 @@ class Sensor:
                 "type {msg_type}, sub_type {value_type}, payload {value}"
             )
 
-        msg.validate(self.protocol_version)
+        msg.validate(protocol_version)
 
 
 class ChildSensor:
